@@ -90,8 +90,18 @@ structure AccSpec where
 def SvcSpec.build (s : SvcSpec) : Svc :=
   { id := 0, chars := List.replicate s.nchars 0, linked := s.linked, hidden := s.hidden, primary := s.primary }
 
-/-- accessory.New + AddService calls: ids all 0, idCount 1 -/
-def AccSpec.build (a : AccSpec) : Acc := { id := a.id, idCount := 1, svcs := a.svcs.map SvcSpec.build }
+/-- `AddService` (F60 repair): the service is appended and the accessory numbered — "adds a service to the accessory and
+    updates the ids of the service and the corresponding characteristics", as its comment always said. -/
+def Acc.addService (a : Acc) (s : Svc) : Acc := ({ a with svcs := a.svcs ++ [s] } : Acc).updateIDs
+
+/-- before the repair it only appended: a service added to an accessory that is served already kept id 0 -/
+def Acc.addServiceOld (a : Acc) (s : Svc) : Acc := { a with svcs := a.svcs ++ [s] }
+
+/-- accessory.New + AddService calls. Every `AddService` numbers the accessory from 1 (the numbering is a function of
+    the list of services alone, `renumbering_is_idempotent`), so a constructed accessory carries the ids 1, 2, 3, … of
+    its whole list of services before it has seen a container. (Until F60 the ids were all 0 at this point.) -/
+def AccSpec.build (a : AccSpec) : Acc :=
+  ({ id := a.id, idCount := 1, svcs := a.svcs.map SvcSpec.build } : Acc).updateIDs
 
 -- ---------------------------------------------------------------------------------------------------
 
@@ -153,12 +163,20 @@ def Container.addOld (m : Container) (k : Nat) : Container × Outcome :=
 def Container.remove (m : Container) (k : Nat) : Container × Outcome :=
   ({ m with accs := m.accs.filter (· != k) }, .removed)
 
-inductive Op | add (k : Nat) | remove (k : Nat)
+/-- `pool[k].AddService(s)`: the application adds a service to an accessory object — one that no container has seen yet, one
+    that is being served, one that was removed -/
+def Container.addSvc (m : Container) (k : Nat) (s : SvcSpec) : Container × Outcome :=
+  match m.pool[k]? with
+  | none => (m, .noObject)
+  | some a => ({ m with pool := m.pool.set k (a.addService s.build) }, .ok)
+
+inductive Op | add (k : Nat) | remove (k : Nat) | addSvc (k : Nat) (s : SvcSpec)
   deriving Repr, DecidableEq
 
 def Container.step (m : Container) : Op → Container × Outcome
   | .add k => m.add k
   | .remove k => m.remove k
+  | .addSvc k s => m.addSvc k s
 
 def Container.run (m : Container) : List Op → Container × List Outcome
   | [] => (m, [])
